@@ -329,6 +329,39 @@ def group_key_rule(ck, prog):
               f"{len(model)} model points)", loc=f.loc(b, T),
               detail=None if clash is None else f"(stride, first step) = {clash[0]} and {clash[1]} get the same key {clash[2]}: the second assertion joins the "
                                                 "first one's group and is enforced under its divisor")
+    # run detection over the sorted assertions (no map): whenever the stride OR the first step of the current assertion differs from
+    # the tracked one, a new group (with its own divisor) is created before the assertion is added — from the edge on which either
+    # comparison says "differs", every path to the `add` passes a creation site (seed C16-M: a stride change alone only updated a tracker)
+    from ..cfg import trace_cond, must_between, S
+    creations = [(b, T) for b, t in f.calls() if (callee_name(t) or "").endswith(("ConstraintDivisor::from_assertion", "BoundaryConstraintGroup::new"))]
+    for sb in range(len(f.blocks)):
+        t = f.term(sb)
+        if t["k"] != "switch":
+            continue
+        c = trace_cond(f, t["d"])
+        which = keys_in(g.walk(ops=[t["d"]], at=(sb, T), through=lambda tt: True))
+        if len(which) != 1:
+            continue
+        op = None
+        if c.kind == "cmp" and c.op in ("==", "!="):
+            op = c.op
+        elif c.kind == "call" and (callee_name(c.call) or "").endswith(("PartialEq::eq", "PartialEq::ne")):
+            op = "==" if (callee_name(c.call) or "").endswith("::eq") else "!="
+            if getattr(c, "neg", False):
+                op = "!=" if op == "==" else "=="
+        if op is None:
+            continue
+        true_t = [tb for v, tb in t["targets"] if v != "0"] or [t["otherwise"]]
+        false_t = [tb for v, tb in t["targets"] if v == "0"] or [t["otherwise"]]
+        differs = true_t if op == "!=" else false_t
+        if not creations or not adds:
+            continue
+        ok_run = must_between(f, [(x, S) for x in differs], creations, [(ab, T) for ab, _ in adds])[0]
+        nm = sorted(which)[0]
+        ck.ob("GROUPKEY", f"group_constraints:new-group-when-{nm}-differs", ok_run,
+              f"group_constraints (run detection): when the {nm} of the current assertion differs from the tracked one a new group is created before the "
+              "assertion is added", loc=f.loc(sb, T),
+              detail=None if ok_run else f"a change of the {nm} alone reaches `add` without a new group: the assertion joins the previous group and its divisor")
     ok = seen == {"stride", "first_step"}
     ck.ob("GROUPKEY", "group_constraints:stride-and-first-step", ok,
           "group_constraints selects the group of an assertion by its stride and its first step", loc=f0.loc(),
